@@ -158,7 +158,7 @@ fn corruptions(sh: &Shape, n_wit: usize) -> Vec<Corr> {
     if n_vals > 0 {
         out.push(Corr::ValuesEmpty);
     }
-    for n in [n_vals + sh.cols, n_vals.saturating_sub(sh.cols), 2 * n_vals, n_vals + sh.cols - 1, n_vals + 2] {
+    for n in [n_vals + sh.cols, n_vals.saturating_sub(sh.cols), 2 * n_vals, n_vals + sh.cols - 1, n_vals + 2, n_vals + 256, n_vals + 65536] {
         if n != n_vals && n != n_vals + 1 && n + 1 != n_vals && n != 0 {
             out.push(Corr::ValuesLen(n));
         }
